@@ -288,6 +288,9 @@ impl Analyzer {
         symbol_table::drop(path, prj);
         scope::drop_tokens(path, prj);
         text_table::drop(path);
+        // Keyed by (path, line): a comment deleted by an edit would otherwise
+        // stay attached to whatever now follows its old line.
+        doc_comment_table::drop(path);
         attribute_table::drop(path);
         unsafe_table::drop(path);
         definition_table::drop(path, prj);
